@@ -646,7 +646,8 @@ class ContextCpu(XContext):
 
     def __getstate__(self):
         state = self.__dict__.copy()
-        state["_kernels"] = {}
+        # compiled kernels cannot be pickled: the copy starts without them
+        state["_kernels"] = type(self._kernels)()
         del state["_buffers"]
         return state
 
